@@ -299,6 +299,8 @@ def step (s : DrvSt) (ws : List String) : DrvSt × String :=
     let k : Option ElemKind := match kind with
       | "ser" => some .serializable
       | "other" => some .other
+      | "ptr1" => some (.pointerOnly true)
+      | "ptr0" => some (.pointerOnly false)
       | "int1" => some .int1
       | _ => none
     match k, sizes.mapM String.toNat? with
